@@ -56,6 +56,18 @@ def run(facts, R):
             return True
         return mapped_acq and e[0] == "field" and e[2] == "0" and e[1][0] == "variant" and e[1][2] == "Some" and e[1][1][0] == "call" and len(e[1][1]) > 3 and e[1][1][3] == acq[0][0]
     spw = [(i, t) for i, t in b.calls() if t["callee"]["name"] == "spawn_blocking"]
+    # a hand-rolled counter in place of the semaphore: a store of a value computed from a load of the same atomic is a
+    # check-then-act that a concurrent release (handler finishing on a blocking thread) can interleave with
+    n_atomic = 0
+    for i, t in b.calls():
+        if "Atomic" in (t["callee"].get("self_ty") or t["callee"]["path"]) and t["callee"]["name"] == "store":
+            n_atomic += 1
+            val = s.op(t["args"][1])
+            tgt = render(s.op(t["args"][0]))
+            loads = [x for x in walk(val) if x[0] == "call" and x[1].endswith("::load") and "Atomic" in x[1] and render(x[2][0]) == tgt]
+            R.check(not loads, "permit-before-spawn", b.path, "slot accounting is one atomic operation",
+                    "the off-reader slot count is updated by load + store on %s (value %s): a permit released concurrently between the two is lost or double counted, "
+                    "so the cap drifts away from the configured limit" % (tgt, render(val)[:120]), t.get("span"), tgt)
     R.check(len(acq) == 1 and len(spw) == 1, "permit-before-spawn", b.path, "shape", "try_acquire_owned=%d spawn_blocking=%d" % (len(acq), len(spw)), b.span)
     if len(acq) != 1 or len(spw) != 1:
         return
@@ -93,11 +105,13 @@ def run(facts, R):
         # the permit local: multi-def (Some(permit) / None); all its defs are Some(acquire Ok payload) or None
         okp = pl is not None
         if okp and pl[0] == "local":
+            from analysis.sym import split_rows
             for d in b.defs_of(pl[1]):
                 if d[0] == "assign":
-                    v = s.rvalue(d[3])
-                    okp = okp and v[0] == "agg" and (v[2] == "None" or (v[2] == "Some" and "as Ok" in render(v) and
-                                                                        ("try_acquire_owned" in render(v) or (mapped_acq and any(x[0] == "call" and len(x) > 3 and x[3] == acq[0][0] for x in walk(v))))))
+                    # (values that flow through temporaries assigned on several paths are resolved by reaching definitions)
+                    for _, v in (split_rows(s, d[1], d[2], d[3]) or [({}, s.rvalue(d[3]))]):
+                        okp = okp and v[0] == "agg" and (v[2] == "None" or (v[2] == "Some" and "as Ok" in render(v) and
+                                                                            ("try_acquire_owned" in render(v) or (mapped_acq and any(x[0] == "call" and len(x) > 3 and x[3] == acq[0][0] for x in walk(v))))))
         R.check(okp, "permit-before-spawn", b.path, "closure captures the acquired permit", "closure captures permit = %s" % (render_n(pl) if pl else None), st.get("span"), "Some(permit from try_acquire_owned) | None")
     else:
         R.bad("permit-before-spawn", b.path, "spawned-closure", "spawn_blocking argument is not a local closure", st.get("span"))
